@@ -547,6 +547,31 @@ func c01Run(ci any) (out Outcome) {
 		out.violate("Start returned neither an error nor an address for line %q (reference: %s)", c.Line, orStr(ref.mustFail, "acceptable"))
 		return
 	}
+	if err != nil {
+		// a line that was rejected stays rejected: asking again must not turn it into a success
+		var addr2 net.Addr
+		var err2 error
+		var panicked2 any
+		if _, ok := within(startTimeout+5*time.Second, func() {
+			defer func() { panicked2 = recover() }()
+			addr2, err2 = cl.Start()
+		}); !ok {
+			out.Slow = "a second Start after a failed one did not return in time"
+			return
+		}
+		if panicked2 != nil {
+			out.violate("second Start after a rejected line %q panicked: %v", c.Line, panicked2)
+			return
+		}
+		if err2 == nil {
+			out.violate("Start rejected line %q (%v) but a second Start on the same client returned success (addr %v, protocol %q)", c.Line, firstLine(err), addr2, cl.Protocol())
+			return
+		}
+		if rc := cl.ReattachConfig(); rc != nil {
+			out.violate("Start rejected line %q (%v) but ReattachConfig() is not nil afterwards: %+v", c.Line, firstLine(err), *rc)
+			return
+		}
+	}
 	if ref.mustFail != "" {
 		if err == nil {
 			out.violate("Start accepted line %q although %s (cfg %+v); addr=%v protocol=%v version=%d", c.Line, ref.mustFail, c.Cfg, addr, cl.Protocol(), cl.NegotiatedVersion())
